@@ -511,7 +511,7 @@ func init() {
 		ID:          "C17",
 		Level:       "exploration",
 		Technique:   "runtime monitoring: differential oracle by construction — command-position token runs of a generated program are folded into aliases (so the unfolded text is the program itself), or a table that must be inert is attached; ParseCommands with the table is compared with ParseCommands of the harness's textual replacement",
-		Rule:        "a case is (aliased source, alias table, textually replaced source): fold of a run of 1-8 tokens starting at a command-position word (values contain operators, reserved words, assignments, redirections, whole compound openers), fold as a chain of two aliases, value with trailing blanks, trailing blank making the next (argument-position) word an alias / no trailing blank leaving it alone, self reference (ls -> 'ls -l'), tables naming only argument-position words, assignment words and all reserved words (must be inert), quoted command names (must be inert), and all 216 cyclic tables over 3 names x trailing blanks against the POSIX algorithm executed by the harness. Normalised skeletons compared; positions are not. distinct_nontrivial = distinct (source, table) pairs.",
+		Rule:        "a case is (aliased source, alias table, textually replaced source); besides the generated folds there is the redir-blank product (alias values ending in one of 11 redirection operators and a blank x 6 heads, directly / through a chain with a blank-terminated target / control without the blank): fold of a run of 1-8 tokens starting at a command-position word (values contain operators, reserved words, assignments, redirections, whole compound openers), fold as a chain of two aliases, value with trailing blanks, trailing blank making the next (argument-position) word an alias / no trailing blank leaving it alone, self reference (ls -> 'ls -l'), tables naming only argument-position words, assignment words and all reserved words (must be inert), quoted command names (must be inert), and all 216 cyclic tables over 3 names x trailing blanks against the POSIX algorithm executed by the harness. Normalised skeletons compared; positions are not. distinct_nontrivial = distinct (source, table) pairs.",
 		Assumptions: []string{"alias names inside command substitutions are not generated (go.sh's nested lexers have no alias table)", "values ending in an escaped blank are not generated", "runs never contain newlines or here-document operators"},
 		Gen:         c17Gen,
 		Replay:      func(c *core.Ctx, raw []byte) { core.ReplayOne(c, raw, c17Exec) },
